@@ -411,7 +411,7 @@ def check(fx, rep, tier):
                 for m, mps in F.walk(root6):
                     if m.get("k") == "If" and "else" not in m and T.diverges(m["then"]) and T._span_key(m["span"])[2] <= ck[1]:
                         builds = any(x.get("k") == "Struct" and x.get("adt") == EXEC_ERR and x.get("variant") == "StackDepthExceeded" for x, _ in F.walk(m["then"]))
-                        ct = T.term(m["cond"], T.Env())
+                        ct = T.term(m["cond"], T.env_at(mps, m, T.mutated_locals(root6)), T.mutated_locals(root6))  # lets inlined (`let requested = len + 1`)
                         bound = None
                         for q in T.subterms(ct):
                             if q[0] == "path":
